@@ -163,21 +163,18 @@ Lemma cvar_max_frame : forall v T c1 c2, In v T -> agr T c1 c2 -> cvar_max v c1 
 Proof. intros v T c1 c2 Hin (_ & HA & _). unfold cvar_max. rewrite (HA v Hin). reflexivity. Qed.
 
 (* bound expressions computed from agreeing contexts are equal *)
-Ltac frm_bnd T Ha :=
-  lazymatch type of Ha with
-  | agr _ ?c1 ?c2 =>
-    repeat match goal with
-    | |- context [cmin ?w c1] => rewrite (cmin_frame w T c1 c2 ltac:(solve_uin) Ha)
-    | |- context [cmax ?w c1] => rewrite (cmax_frame w T c1 c2 ltac:(solve_uin) Ha)
-    | |- context [cvar_min ?v c1] => rewrite (cvar_min_frame v T c1 c2 ltac:(assumption) Ha)
-    | |- context [cvar_max ?v c1] => rewrite (cvar_max_frame v T c1 c2 ltac:(assumption) Ha)
-    end; reflexivity
-  end.
+Ltac frm_bnd T :=
+  repeat match goal with
+  | Ha : agr T ?c1 ?c2 |- context [cmin ?w ?c1] => rewrite (cmin_frame w T c1 c2 ltac:(solve_uin) Ha)
+  | Ha : agr T ?c1 ?c2 |- context [cmax ?w ?c1] => rewrite (cmax_frame w T c1 c2 ltac:(solve_uin) Ha)
+  | Ha : agr T ?c1 ?c2 |- context [cvar_min ?v ?c1] => rewrite (cvar_min_frame v T c1 c2 ltac:(assumption) Ha)
+  | Ha : agr T ?c1 ?c2 |- context [cvar_max ?v ?c1] => rewrite (cvar_max_frame v T c1 c2 ltac:(assumption) Ha)
+  end; reflexivity.
 
 Ltac frm_one T w mx b1 b2 c1 c2 k1 k2 Ha :=
   let d1 := fresh "d" in let d2 := fresh "d" in let Ha1 := fresh "Ha" in
   refine (frm_step T w mx b1 b2 c1 c2 k1 k2 _ Ha _ _);
-  [solve_uin | frm_bnd T Ha | intros d1 d2 Ha1; frm_chain T Ha1]
+  [solve_uin | frm_bnd T | intros d1 d2 Ha1; frm_chain T Ha1]
 with frm_chain T Ha :=
   cbv beta zeta; unfold vset_min, vset_max;
   lazymatch goal with
@@ -188,11 +185,11 @@ with frm_chain T Ha :=
   | |- orel _ (obind (vset ?w ?mx ?b1 ?c1) ?k1) (obind (vset ?w ?mx ?b2 ?c2) ?k2) =>
       frm_one T w mx b1 b2 c1 c2 k1 k2 Ha
   | |- orel _ (cset_min ?v ?b1 ?c1) (cset_min ?v ?b2 ?c2) =>
-      refine (frm_last T (VVar v) false b1 b2 c1 c2 _ Ha _); [solve_uin | frm_bnd T Ha]
+      refine (frm_last T (VVar v) false b1 b2 c1 c2 _ Ha _); [solve_uin | frm_bnd T]
   | |- orel _ (cset_max ?v ?b1 ?c1) (cset_max ?v ?b2 ?c2) =>
-      refine (frm_last T (VVar v) true b1 b2 c1 c2 _ Ha _); [solve_uin | frm_bnd T Ha]
+      refine (frm_last T (VVar v) true b1 b2 c1 c2 _ Ha _); [solve_uin | frm_bnd T]
   | |- orel _ (vset ?w ?mx ?b1 ?c1) (vset ?w ?mx ?b2 ?c2) =>
-      refine (frm_last T w mx b1 b2 c1 c2 _ Ha _); [solve_uin | frm_bnd T Ha]
+      refine (frm_last T w mx b1 b2 c1 c2 _ Ha _); [solve_uin | frm_bnd T]
   | _ => idtac
   end.
 
@@ -265,4 +262,358 @@ Lemma mk_sub_good : forall x y s, view_ok x -> view_ok y -> good (mk_sub x y s).
 Proof.
   intros x y s Hx Hy. unfold mk_sub. apply mk_add_good; [exact Hx|].
   apply vtimes_neg_ok; [lia|exact Hy].
+Qed.
+
+(* ------------------------------------------------------------------------------------------ *)
+(* LessThanOrEquals and the postings derived from it *)
+
+Section Leq.
+  Variables (x y : view) (T : list nat).
+  Hypotheses (Hx : view_ok x) (Hy : view_ok y) (Ux : uin x T) (Uy : uin y T).
+
+  Lemma prune_leq_ctr : forall c c', wf_store (fst c) -> prune_leq x y c = Some c' -> ctr T c c'.
+  Proof. intros c c' W H. unfold prune_leq in H. ctr_chain T W H. Qed.
+
+  Lemma prune_leq_snd : forall a n c, uscope x n -> uscope y n -> okc a n c ->
+    vsem x a <= vsem y a -> exists c2, prune_leq x y c = Some c2 /\ okc a n c2.
+  Proof.
+    intros a n c Sx Sy O Hs. unfold prune_leq.
+    snd_chain a n O ltac:(fun O =>
+      let Bx := fresh in let By := fresh in
+      pose proof (cbnd_bounds x a n _ Hx Sx O) as Bx;
+      pose proof (cbnd_bounds y a n _ Hy Sy O) as By;
+      unfold bnd_ok; lia).
+  Qed.
+
+  Lemma prune_leq_chk : forall s0 ev a, wf_store s0 -> inst a s0 ->
+    (forall v, In v T -> dfixed (sget s0 v) = true) ->
+    prune_leq x y (s0, ev) <> None -> vsem x a <= vsem y a.
+  Proof.
+    intros s0 ev a W Hi Hf H. unfold prune_leq, vset_max in H.
+    destruct (chk_step x true _ a s0 ev _ Hx W Hi (fixed_of_uin x T s0 Ux Hf) H) as [B1 _].
+    destruct (cbnd_fixed y T a s0 ev Hi Uy Hf) as [E1 E2].
+    unfold bnd_ok in B1. lia.
+  Qed.
+
+  Lemma prune_leq_frm : forall c1 c2, agr T c1 c2 -> orel (agr T) (prune_leq x y c1) (prune_leq x y c2).
+  Proof. intros c1 c2 Ha. unfold prune_leq. frm_chain T Ha. Qed.
+End Leq.
+
+Lemma mk_leq_good : forall x y, view_ok x -> view_ok y -> good (mk_leq x y).
+Proof.
+  intros x y Hx Hy. set (T := trig (mk_leq x y)).
+  assert (Ux : uin x T) by (apply uin_app_l, uin_self).
+  assert (Uy : uin y T) by (apply uin_app_r, uin_self).
+  split; [|split; [|split]].
+  - apply contracting_of_ctr. intros c c' W H. exact (prune_leq_ctr x y T Hx Hy Ux Uy c c' W H).
+  - apply sound_of_okc. intros a n c Hsc O Hs. cbn [sat mk_leq] in Hs. apply Z.leb_le in Hs.
+    apply (prune_leq_snd x y Hx Hy a n c); try assumption.
+    + intros v Hv. apply Hsc, Ux, Hv.
+    + intros v Hv. apply Hsc, Uy, Hv.
+  - intros s0 ev a W Hi Hf H. cbn [sat mk_leq]. apply Z.leb_le.
+    exact (prune_leq_chk x y T Hx Ux Uy s0 ev a W Hi Hf H).
+  - apply frame_of_agr.
+    + intros c1 c2 Ha. exact (prune_leq_frm x y T Ux Uy c1 c2 Ha).
+    + intros a1 a2 H. cbn [sat mk_leq].
+      rewrite (vsem_frame x T a1 a2 Ux H), (vsem_frame y T a1 a2 Uy H). reflexivity.
+Qed.
+
+Lemma mk_lt_good : forall x y, view_ok x -> view_ok y -> good (mk_lt x y).
+Proof. intros x y Hx Hy. unfold mk_lt. apply mk_leq_good; [exact Hx|exact Hy]. Qed.
+Lemma mk_geq_good : forall x y, view_ok x -> view_ok y -> good (mk_geq x y).
+Proof. intros x y Hx Hy. unfold mk_geq. apply mk_leq_good; [exact Hy|exact Hx]. Qed.
+Lemma mk_gt_good : forall x y, view_ok x -> view_ok y -> good (mk_gt x y).
+Proof. intros x y Hx Hy. unfold mk_gt. apply mk_leq_good; [exact Hy|exact Hx]. Qed.
+
+(* ------------------------------------------------------------------------------------------ *)
+(* Eq *)
+
+Section Eq.
+  Variables (x y : view) (T : list nat).
+  Hypotheses (Hx : view_ok x) (Hy : view_ok y) (Ux : uin x T) (Uy : uin y T).
+
+  Lemma prune_eq_ctr : forall c c', wf_store (fst c) -> prune_eq x y c = Some c' -> ctr T c c'.
+  Proof. intros c c' W H. unfold prune_eq in H. ctr_chain T W H. Qed.
+
+  Lemma prune_eq_snd : forall a n c, uscope x n -> uscope y n -> okc a n c ->
+    vsem x a = vsem y a -> exists c2, prune_eq x y c = Some c2 /\ okc a n c2.
+  Proof.
+    intros a n c Sx Sy O Hs. unfold prune_eq.
+    snd_chain a n O ltac:(fun O =>
+      let Bx := fresh in let By := fresh in
+      pose proof (cbnd_bounds x a n _ Hx Sx O) as Bx;
+      pose proof (cbnd_bounds y a n _ Hy Sy O) as By;
+      unfold bnd_ok; lia).
+  Qed.
+
+  Lemma prune_eq_chk : forall s0 ev a, wf_store s0 -> inst a s0 ->
+    (forall v, In v T -> dfixed (sget s0 v) = true) ->
+    prune_eq x y (s0, ev) <> None -> vsem x a = vsem y a.
+  Proof.
+    intros s0 ev a W Hi Hf H. unfold prune_eq, vset_min, vset_max in H.
+    pose proof (fixed_of_uin x T s0 Ux Hf) as Fx.
+    destruct (chk_step x false _ a s0 ev _ Hx W Hi Fx H) as [B1 H1]. cbv beta in H1.
+    destruct (chk_step x true _ a s0 ev _ Hx W Hi Fx H1) as [B2 _].
+    destruct (cbnd_fixed y T a s0 ev Hi Uy Hf) as [E1 E2].
+    unfold bnd_ok in B1, B2. lia.
+  Qed.
+
+  Lemma prune_eq_frm : forall c1 c2, agr T c1 c2 -> orel (agr T) (prune_eq x y c1) (prune_eq x y c2).
+  Proof. intros c1 c2 Ha. unfold prune_eq. frm_chain T Ha. Qed.
+End Eq.
+
+Lemma mk_eq_good : forall x y, view_ok x -> view_ok y -> good (mk_eq x y).
+Proof.
+  intros x y Hx Hy. set (T := trig (mk_eq x y)).
+  assert (Ux : uin x T) by (apply uin_app_l, uin_self).
+  assert (Uy : uin y T) by (apply uin_app_r, uin_self).
+  split; [|split; [|split]].
+  - apply contracting_of_ctr. intros c c' W H. exact (prune_eq_ctr x y T Hx Hy Ux Uy c c' W H).
+  - apply sound_of_okc. intros a n c Hsc O Hs. cbn [sat mk_eq] in Hs. apply Z.eqb_eq in Hs.
+    apply (prune_eq_snd x y Hx Hy a n c); try assumption.
+    + intros v Hv. apply Hsc, Ux, Hv.
+    + intros v Hv. apply Hsc, Uy, Hv.
+  - intros s0 ev a W Hi Hf H. cbn [sat mk_eq]. apply Z.eqb_eq.
+    exact (prune_eq_chk x y T Hx Ux Uy s0 ev a W Hi Hf H).
+  - apply frame_of_agr.
+    + intros c1 c2 Ha. exact (prune_eq_frm x y T Ux Uy c1 c2 Ha).
+    + intros a1 a2 H. cbn [sat mk_eq].
+      rewrite (vsem_frame x T a1 a2 Ux H), (vsem_frame y T a1 a2 Uy H). reflexivity.
+Qed.
+
+(* ------------------------------------------------------------------------------------------ *)
+(* NotEquals placeholder: contracting, sound, framed -- but it checks nothing (finding D3) *)
+
+Lemma neq_noop_contracting : forall x y, contracting (mk_neq_noop x y).
+Proof.
+  intros x y. apply contracting_of_ctr. intros c c' W H. cbn [prune mk_neq_noop] in H.
+  inversion H; subst. apply ctr_refl. exact W.
+Qed.
+
+Lemma neq_noop_sound : forall x y, sound (mk_neq_noop x y).
+Proof. intros x y s ev a W _ Hi _. exists s, ev. split; [reflexivity|exact Hi]. Qed.
+
+Lemma neq_noop_frame : forall x y, frame (mk_neq_noop x y).
+Proof.
+  intros x y. set (T := trig (mk_neq_noop x y)).
+  assert (Ux : uin x T) by (apply uin_app_l, uin_self).
+  assert (Uy : uin y T) by (apply uin_app_r, uin_self).
+  apply frame_of_agr.
+  - intros c1 c2 Ha. cbn [prune mk_neq_noop orel]. exact Ha.
+  - intros a1 a2 H. cbn [sat mk_neq_noop].
+    rewrite (vsem_frame x T a1 a2 Ux H), (vsem_frame y T a1 a2 Uy H). reflexivity.
+Qed.
+
+Lemma neq_noop_checking_refuted : exists x y, ~ checking (mk_neq_noop x y).
+Proof.
+  exists (VConst 0), (VConst 0). intros H.
+  assert (W : wf_store []) by (intros v Hv; cbn in Hv; lia).
+  assert (Hi : inst (fun _ => 0) []) by (intros v Hv; cbn in Hv; lia).
+  specialize (H [] [] (fun _ => 0) W Hi). cbn in H.
+  assert (E : false = true); [|discriminate E].
+  apply H; [intros v []|discriminate].
+Qed.
+
+(* also with genuine variables: two fixed equal variables pass the no-op *)
+Lemma neq_noop_checking_refuted_vars : ~ checking (mk_neq_noop (VVar 0) (VVar 1)).
+Proof.
+  intros H.
+  assert (W : wf_store [[3]; [3]]).
+  { intros v Hv. destruct v as [|[|v]]; cbn in Hv; try lia; (split; [discriminate|exact I]). }
+  assert (Hi : inst (fun _ => 3) [[3]; [3]]).
+  { intros v Hv. destruct v as [|[|v]]; cbn in Hv; try lia; left; reflexivity. }
+  specialize (H [[3]; [3]] [] (fun _ => 3) W Hi). cbn in H.
+  assert (E : false = true); [|discriminate E].
+  apply H; [|discriminate]. intros v [<-|[<-|[]]]; reflexivity.
+Qed.
+
+(* ------------------------------------------------------------------------------------------ *)
+(* Sum *)
+
+Lemma sum_bnd_pt : forall xs a s0, (forall y, In y xs -> vmin y s0 <= vsem y a <= vmax y s0) ->
+  sum_bnd xs false s0 <= sum_sem xs a <= sum_bnd xs true s0.
+Proof.
+  induction xs as [|x r IH]; intros a s0 H; cbn [sum_bnd sum_sem]; [lia|].
+  pose proof (H x (or_introl eq_refl)) as Bx. unfold vmin, vmax in Bx.
+  specialize (IH a s0 (fun y Hy => H y (or_intror Hy))). lia.
+Qed.
+
+(* the sum of the other terms is bounded by the sum of the other bounds *)
+Lemma sum_other : forall xs a s0 x, In x xs ->
+  (forall y, In y xs -> vmin y s0 <= vsem y a <= vmax y s0) ->
+  sum_sem xs a - vsem x a <= sum_bnd xs true s0 - vmax x s0 /\
+  sum_bnd xs false s0 - vmin x s0 <= sum_sem xs a - vsem x a.
+Proof.
+  induction xs as [|z r IH]; intros a s0 x Hin H; [destruct Hin|]. cbn [sum_bnd sum_sem].
+  destruct Hin as [->|Hin].
+  - pose proof (sum_bnd_pt r a s0 (fun y Hy => H y (or_intror Hy))). unfold vmin, vmax. lia.
+  - pose proof (H z (or_introl eq_refl)) as Bz. unfold vmin, vmax in Bz.
+    specialize (IH a s0 x Hin (fun y Hy => H y (or_intror Hy))). lia.
+Qed.
+
+Lemma sum_bnd_fixed : forall xs T a s0 mx, inst a s0 -> (forall x, In x xs -> uin x T) ->
+  (forall v, In v T -> dfixed (sget s0 v) = true) -> sum_bnd xs mx s0 = sum_sem xs a.
+Proof.
+  induction xs as [|x r IH]; intros T a s0 mx Hi Hin Hf; cbn [sum_bnd sum_sem]; [reflexivity|].
+  rewrite (vbnd_fixed x s0 a mx Hi (fixed_of_uin x T s0 (Hin x (or_introl eq_refl)) Hf)).
+  rewrite (IH T a s0 mx Hi (fun y Hy => Hin y (or_intror Hy)) Hf). reflexivity.
+Qed.
+
+Lemma sum_bnd_frame : forall xs T s1 s2 mx, (forall x, In x xs -> uin x T) -> agree_on T s1 s2 ->
+  sum_bnd xs mx s1 = sum_bnd xs mx s2.
+Proof.
+  induction xs as [|x r IH]; intros T s1 s2 mx Hin Ha; cbn [sum_bnd]; [reflexivity|].
+  rewrite (vbnd_frame x T s1 s2 (Hin x (or_introl eq_refl)) Ha mx).
+  rewrite (IH T s1 s2 mx (fun y Hy => Hin y (or_intror Hy)) Ha). reflexivity.
+Qed.
+
+Lemma sum_sem_frame : forall xs T a1 a2, (forall x, In x xs -> uin x T) ->
+  (forall v, In v T -> a1 v = a2 v) -> sum_sem xs a1 = sum_sem xs a2.
+Proof.
+  induction xs as [|x r IH]; intros T a1 a2 Hin H; cbn [sum_sem]; [reflexivity|].
+  rewrite (vsem_frame x T a1 a2 (Hin x (or_introl eq_refl)) H).
+  rewrite (IH T a1 a2 (fun y Hy => Hin y (or_intror Hy)) H). reflexivity.
+Qed.
+
+Section Sum.
+  Variable (T : list nat).
+
+  Lemma sum_terms_ctr : forall r, Forall view_ok r -> (forall x, In x r -> uin x T) ->
+    forall smin smax mn mx c c', wf_store (fst c) ->
+    sum_terms r smin smax mn mx c = Some c' -> ctr T c c'.
+  Proof.
+    induction r as [|x r IH]; intros Hok Hin smin smax mn mx c c' W H.
+    - cbn [sum_terms] in H. inversion H; subst. apply ctr_refl; exact W.
+    - cbn [sum_terms] in H. inversion Hok as [|? ? Hx Hr]; subst.
+      assert (Ux : uin x T) by (apply Hin; left; reflexivity).
+      ctr_chain T W H.
+      match goal with
+      | Hs : sum_terms r _ _ _ _ ?c2 = Some _, W2 : wf_store (fst ?c2) |- _ =>
+          exact (IH Hr (fun z Hz => Hin z (or_intror Hz)) _ _ _ _ c2 c' W2 Hs)
+      end.
+  Qed.
+
+  Lemma prune_sum_ctr : forall xs s, Forall view_ok xs -> (forall x, In x xs -> uin x T) -> In s T ->
+    forall c c', wf_store (fst c) -> prune_sum xs s c = Some c' -> ctr T c c'.
+  Proof.
+    intros xs s Hok Hin Us c c' W H. unfold prune_sum in H.
+    ctr_chain T W H.
+    match goal with
+    | Hs : sum_terms xs _ _ _ _ ?c2 = Some _, W2 : wf_store (fst ?c2) |- _ =>
+        exact (sum_terms_ctr xs Hok Hin _ _ _ _ c2 c' W2 Hs)
+    end.
+  Qed.
+
+  Lemma sum_terms_frm : forall r, (forall x, In x r -> uin x T) ->
+    forall smin smax mn mx c1 c2, agr T c1 c2 ->
+    orel (agr T) (sum_terms r smin smax mn mx c1) (sum_terms r smin smax mn mx c2).
+  Proof.
+    induction r as [|x r IH]; intros Hin smin smax mn mx c1 c2 Ha; cbn [sum_terms].
+    - cbn [orel]. exact Ha.
+    - assert (Ux : uin x T) by (apply Hin; left; reflexivity).
+      frm_chain T Ha. apply IH; [intros z Hz; apply Hin; right; exact Hz | assumption].
+  Qed.
+
+  Lemma prune_sum_frm : forall xs s, (forall x, In x xs -> uin x T) -> In s T ->
+    forall c1 c2, agr T c1 c2 -> orel (agr T) (prune_sum xs s c1) (prune_sum xs s c2).
+  Proof.
+    intros xs s Hin Us c1 c2 Ha. unfold prune_sum. cbv zeta.
+    pose proof Ha as (_ & HA & _).
+    rewrite !(sum_bnd_frame xs T (fst c1) (fst c2) _ Hin HA).
+    frm_chain T Ha.
+    match goal with
+    | Hd : agr T ?d1 ?d2 |- orel _ (sum_terms _ _ _ _ _ ?d1) (sum_terms _ _ _ _ _ ?d2) =>
+        rewrite (cvar_min_frame s T d1 d2 Us Hd), (cvar_max_frame s T d1 d2 Us Hd);
+        apply sum_terms_frm; assumption
+    end.
+  Qed.
+End Sum.
+
+Lemma sum_terms_snd : forall r a n s0 smin smax mn mx,
+  Forall view_ok r -> (forall x, In x r -> uscope x n) -> wf_store s0 ->
+  (forall x, In x r -> smin - (mx - vmax x s0) <= vsem x a /\ vsem x a <= smax - (mn - vmin x s0)) ->
+  forall c, okc a n c -> sub_store (fst c) s0 ->
+  exists c', sum_terms r smin smax mn mx c = Some c' /\ okc a n c'.
+Proof.
+  induction r as [|x r IH]; intros a n s0 smin smax mn mx Hok Hsc W0 Hb c O Sub.
+  - exists c. split; [reflexivity|exact O].
+  - cbn [sum_terms]. cbv zeta. unfold vset_min, vset_max.
+    inversion Hok as [|? ? Hx Hr]; subst.
+    assert (Sx : uscope x n) by (apply Hsc; left; reflexivity).
+    destruct (Hb x (or_introl eq_refl)) as [B1 B2].
+    pose proof O as (Wc & _ & _).
+    destruct (vbnd_sub x s0 (fst c) Hx W0 Wc Sub) as [M1 M2].
+    destruct (vset_ok x false (smin - (mx - cmax x c)) a n c Hx Sx O) as (c1 & E1 & O1 & S1).
+    { unfold bnd_ok, cmax. lia. }
+    rewrite E1. cbn [obind].
+    destruct (vset_ok x true (smax - (mn - cmin x c)) a n c1 Hx Sx O1) as (c2 & E2 & O2 & S2).
+    { unfold bnd_ok, cmin. lia. }
+    rewrite E2. cbn [obind].
+    apply (IH a n s0); try assumption.
+    + intros z Hz. apply Hsc. right. exact Hz.
+    + intros z Hz. apply Hb. right. exact Hz.
+    + eapply sub_store_trans; [exact S2|]. eapply sub_store_trans; [exact S1|exact Sub].
+Qed.
+
+Lemma prune_sum_snd : forall xs s a n c, Forall view_ok xs -> (forall x, In x xs -> uscope x n) ->
+  (s < n)%nat -> okc a n c -> sum_sem xs a = a s ->
+  exists c2, prune_sum xs s c = Some c2 /\ okc a n c2.
+Proof.
+  intros xs s a n c Hok Hsc Ss O Hs. unfold prune_sum. cbv zeta.
+  assert (Hpt : forall y, In y xs -> vmin y (fst c) <= vsem y a <= vmax y (fst c)).
+  { intros y Hy. rewrite Forall_forall in Hok.
+    exact (cbnd_bounds y a n c (Hok y Hy) (Hsc y Hy) O). }
+  pose proof (sum_bnd_pt xs a (fst c) Hpt) as B.
+  pose proof O as (W0 & _ & _).
+  destruct (vset_ok (VVar s) false (sum_bnd xs false (fst c)) a n c I (uscope_var s n Ss) O)
+    as (c1 & E1 & O1 & S1).
+  { unfold bnd_ok. cbn [vsem]. lia. }
+  cbn [vset] in E1. rewrite E1. cbn [obind].
+  destruct (vset_ok (VVar s) true (sum_bnd xs true (fst c)) a n c1 I (uscope_var s n Ss) O1)
+    as (c2 & E2 & O2 & S2).
+  { unfold bnd_ok. cbn [vsem]. lia. }
+  cbn [vset] in E2. rewrite E2. cbn [obind].
+  pose proof (cvar_bounds s a n c2 Ss O2) as Bs.
+  apply (sum_terms_snd xs a n (fst c)); try assumption.
+  - intros x Hx. destruct (sum_other xs a (fst c) x Hx Hpt) as [P1 P2]. lia.
+  - eapply sub_store_trans; [exact S2|exact S1].
+Qed.
+
+Lemma prune_sum_chk : forall xs s T s0 ev a, (forall x, In x xs -> uin x T) -> In s T ->
+  wf_store s0 -> inst a s0 -> (forall v, In v T -> dfixed (sget s0 v) = true) ->
+  prune_sum xs s (s0, ev) <> None -> sum_sem xs a = a s.
+Proof.
+  intros xs s T s0 ev a Hin Us W Hi Hf H. unfold prune_sum in H. cbv zeta in H. cbn [fst] in H.
+  pose proof (fixed_of_uin (VVar s) T s0 (uin_var s T Us) Hf) as Fs.
+  destruct (chk_step (VVar s) false _ a s0 ev _ I W Hi Fs H) as [B1 H1]. cbv beta in H1.
+  destruct (chk_step (VVar s) true _ a s0 ev _ I W Hi Fs H1) as [B2 _].
+  rewrite (sum_bnd_fixed xs T a s0 false Hi Hin Hf) in B1.
+  rewrite (sum_bnd_fixed xs T a s0 true Hi Hin Hf) in B2.
+  unfold bnd_ok in B1, B2. cbn [vsem] in B1, B2. lia.
+Qed.
+
+Lemma uin_flat_map : forall xs x, In x xs -> uin x (flat_map uvarl xs).
+Proof.
+  intros xs x Hx v Hv. apply in_flat_map. exists x. split; [exact Hx|].
+  unfold uvarl. rewrite Hv. left. reflexivity.
+Qed.
+
+Lemma mk_sum_good : forall xs s, Forall view_ok xs -> good (mk_sum xs s).
+Proof.
+  intros xs s Hok. set (T := trig (mk_sum xs s)).
+  assert (Hin : forall x, In x xs -> uin x T).
+  { intros x Hx. apply uin_app_l, uin_flat_map, Hx. }
+  assert (Us : In s T) by (apply in_or_app; right; left; reflexivity).
+  split; [|split; [|split]].
+  - apply contracting_of_ctr. intros c c' W H. exact (prune_sum_ctr T xs s Hok Hin Us c c' W H).
+  - apply sound_of_okc. intros a n c Hsc O Hs. cbn [sat mk_sum] in Hs. apply Z.eqb_eq in Hs.
+    apply (prune_sum_snd xs s a n c); try assumption.
+    + intros x Hx v Hv. apply Hsc. apply (Hin x Hx v Hv).
+    + apply Hsc, Us.
+  - intros s0 ev a W Hi Hf H. cbn [sat mk_sum]. apply Z.eqb_eq.
+    exact (prune_sum_chk xs s T s0 ev a Hin Us W Hi Hf H).
+  - apply frame_of_agr.
+    + intros c1 c2 Ha. exact (prune_sum_frm T xs s Hin Us c1 c2 Ha).
+    + intros a1 a2 H. cbn [sat mk_sum].
+      rewrite (sum_sem_frame xs T a1 a2 Hin H), (H s Us). reflexivity.
 Qed.
